@@ -3,6 +3,8 @@ CONSTANTS NNodes = 1
  MaxMut = 1
  PairStride = 1
  Seed = 1
+ SparseNodes = 1
+ SparseOps = {}
 INVARIANTS Judge
 POSTCONDITION AllConsumed
 CHECK_DEADLOCK FALSE
